@@ -14,8 +14,8 @@ REPS = [0x0000, 0x0001, 0xA700, 0xFE00, 0xFF00, 0x0002, 0xB001, 0xFF01, 0xB000, 
 SERVICES = [("find", "find", False), ("findrq", "find", True), ("get", "get", False), ("move", "move", False)]
 
 
-def continued(svc, kind, code):
-    out = R.run(svc, [["rsp", kind, True, code, "absent", 0]])
+def continued(svc, kind, code, model=None):
+    out = R.run(svc, [["rsp", kind, True, code, "absent", 0]], model=model)
     if out["raised"] is not None or out["overrun"] or not out["yields"] or out["yields"][0][0] != code:
         return None, out
     return out["recvs"] >= 2, out
@@ -61,3 +61,54 @@ def check(ctx):
             if (not cont) != m_final:
                 ctx.diff(case, not cont, m_final, "SCU finality: real generator vs Lean Status.scuFinal")
     ctx.extra["scu_finality_cases"] = len(codes) * len(SERVICES)
+    # every query/retrieve information model the SCU calls accept x the codes where finality could be model-dependent
+    # (the Warning codes of the C-FIND tables, 0xB001 above all, and one representative per category)
+    from pynetdicom import sop_class as sc
+    from pynetdicom.sop_class import uid_to_service_class
+
+    models = {"find": [], "get": [], "move": []}
+    for name in sorted(vars(sc)):
+        uid = getattr(sc, name)
+        if not isinstance(uid, sc.SOPClass) or name.startswith("_"):
+            continue
+        try:
+            klass = uid_to_service_class(uid).__name__
+        except Exception:
+            continue
+        low = name.lower()
+        if klass in ("QueryRetrieveServiceClass", "BasicWorklistManagementServiceClass", "RelevantPatientInformationQueryServiceClass",
+                     "SubstanceAdministrationQueryServiceClass", "HangingProtocolQueryRetrieveServiceClass",
+                     "DefinedProcedureProtocolQueryRetrieveServiceClass", "ColorPaletteQueryRetrieveServiceClass",
+                     "ImplantTemplateQueryRetrieveServiceClass", "ProtocolApprovalQueryRetrieveServiceClass",
+                     "InventoryQueryRetrieveServiceClass", "UnifiedProcedureStepServiceClass"):
+            if low.endswith("find") or "worklist" in low or "informationquery" in low or low == "repositoryquery" or klass.startswith(("Relevant", "Substance")):
+                models["find"].append((name, uid))
+            elif low.endswith("get"):
+                models["get"].append((name, uid))
+            elif low.endswith("move"):
+                models["move"].append((name, uid))
+    probe = [0x0000, 0xB000, 0xB001, 0xA700, 0xFE00, 0xFF00, 0xFF01, 0xC000]
+    n_models = 0
+    for kind, lst in models.items():
+        for name, uid in lst:
+            n_models += 1
+            for c in probe:
+                cat = st.code_to_category(c)
+                want_final = not (str(uid) == str(sc.RepositoryQuery) and c == 0xB001) and cat != STATUS_PENDING
+                try:
+                    cont, out = continued(kind, kind, c, model=uid)
+                except Exception as exc:  # a model the call refuses (e.g. not a C-FIND model after all): not a verdict
+                    ctx.note(f"finality: {kind} with {name} not exercised ({type(exc).__name__})")
+                    break
+                case = ["scu-final-model", kind, name, c]
+                ctx.case(case, nontrivial=True, kind=f"scu-final-model:{kind}")
+                if cont is None:
+                    if out["raised"] is not None:
+                        ctx.note(f"finality: {kind} with {name} not exercised ({out['raised'][:60]})")
+                        break
+                    continue
+                if (not cont) != want_final:
+                    ctx.fail(f"scu-final:{kind}:{name}:{c:#06x}",
+                             f"{kind} with query model {name}: status {c:#06x} ({cat}) {'continued' if cont else 'stopped'} but must be "
+                             f"{'final' if want_final else 'non-final'}", case)
+    ctx.extra["scu_finality_models"] = n_models
